@@ -240,13 +240,15 @@ def apply_reassignment(phys, system, rec):
     return phys2
 
 
-def check_dxdtf_values(ctx, f, xU, phys, chem, U, case, key, what):
+def check_dxdtf_values(ctx, f, xU, phys, chem, U, case, key, what, int64=False):
     """one call of a closure returned by make_dxdtf against the rate law; returns the output or None"""
     ns = phys["ns"]
     fq, fr = L.si_factor(U, L.D_QTY), L.si_factor(U, L.D_RATE)
     orc = L.oracle_rate(phys, [Fraction(v) * fq for v in xU])
+    if int64:
+        case = dict(case, x_call_int64=True)
     try:
-        out = [float(v) for v in f(0.0, list(xU))]
+        out = [float(v) for v in f(0.0, __import__("numpy").array(list(xU), dtype="int64") if int64 else list(xU))]
     except Exception as ex:  # noqa
         ctx.violation(key + ":raises", "%s raised %s" % (what, type(ex).__name__), case, impl=type(ex).__name__)
         return None
@@ -261,6 +263,23 @@ def check_dxdtf_values(ctx, f, xU, phys, chem, U, case, key, what):
                 dict(case, s=s, x_call=list(xU)), impl=out[s], expected=rstr(exp / fr))
             return None
     return out
+
+
+def pick_integer_state(phys, chem, U):
+    """an integer state on which truncating a rate to an integer would show: by the ORACLE, some free entry has a rate (in U)
+    that is neither an integer nor beyond 2^52; else [3, 5, 2, ...]"""
+    ns = phys["ns"]
+    fq, fr = L.si_factor(U, L.D_QTY), L.si_factor(U, L.D_RATE)
+    cands = [[3, 5, 2, 7, 4, 6], [1, 1, 1, 1, 1, 1], [7, 11, 13, 17, 19, 23], [1, 2, 1, 2, 1, 2], [1000003, 999983, 1000033, 1000037, 1000039, 1000081],
+             [1, 0, 1, 0, 1, 0], [0, 1, 0, 1, 0, 1]]
+    for c in cands:
+        xi = c[:ns]
+        orc = L.oracle_rate(phys, [Fraction(v) * fq for v in xi])
+        for s_ in range(ns):
+            r = orc[s_][0] / fr
+            if not chem[s_] and r != 0 and abs(r) < 2 ** 52 and abs(r - round(r)) > Fraction(1, 1000) * max(abs(r), 1) and abs(orc[s_][1] / fr) < 2 ** 52:
+                return xi
+    return cands[0][:ns]
 
 
 def run_dxdtf(ctx, jobs):
@@ -321,6 +340,13 @@ def run_dxdtf(ctx, jobs):
                     if again != out:
                         ctx.violation("dxdtf-repeat:pure", "the function returned by make_dxdtf gives %r, then %r for the same (t, x)" % (out, again), case,
                                       impl=again, expected=out)
+            # ---- an INTEGER-typed state (list of int, int64 array) denotes the same amounts as the float one
+            xi = pick_integer_state(phys, chem, U)
+            check_dxdtf_values(ctx, f, xi, phys, chem, U, dict(case, sequence="integer-typed state"), "dxdtf-int",
+                               "the function returned by make_dxdtf called with the list of int %r" % xi)
+            check_dxdtf_values(ctx, f, xi, phys, chem, U, dict(case, sequence="integer-typed state"), "dxdtf-int",
+                               "the function returned by make_dxdtf called with numpy.array(%r, dtype=int64)" % xi, int64=True)
+            ctx.count("dxdtf_integer_typed_calls", 2)
             # ---- object re-use: assign a rate constant through the property setter, ask for the closure again
             if phys["reacs"]:
                 sys2 = system.copy()
@@ -700,7 +726,7 @@ def replay(ctx, rec):
                 orc2 = L.oracle_rate(phys, [Fraction(v) * fq for v in xc])
                 mx = max([abs(v) for v in case["xU"]] + [0.0])
                 f(0.0, [v * 1.5 + 0.25 * mx for v in case["xU"]])
-                res2 = [float(v) for v in f(0.0, list(xc))]
+                res2 = [float(v) for v in f(0.0, __import__("numpy").array(list(xc), dtype="int64") if case.get("x_call_int64") else list(xc))]
                 ok = all(close(res2[s], (Fraction(0) if chem[s] else orc2[s][0]) / fr, orc2[s][1] / fr, rel=TOL) for s in range(phys["ns"]))
                 out.update(later_call=res2, later_expected=[0.0 if chem[s] else float(orc2[s][0] / fr) for s in range(phys["ns"])])
         except Exception as ex:  # noqa
